@@ -458,8 +458,13 @@ func (m *Encoder) encodeBigInt(v reflect.Value) error {
 
 // EncodeDecimal encodes an ion.Decimal to the output writer as an Ion decimal.
 func (m *Encoder) encodeDecimal(v reflect.Value) error {
-	d := v.Addr().Interface().(*Decimal)
-	return m.w.WriteDecimal(d)
+	if v.CanAddr() {
+		return m.w.WriteDecimal(v.Addr().Interface().(*Decimal))
+	}
+	// A Decimal passed by value (Marshal(d), a map element, a field of a struct
+	// passed by value) is not addressable: encode a copy.
+	d := v.Interface().(Decimal)
+	return m.w.WriteDecimal(&d)
 }
 
 func (m *Encoder) encodeWithAnnotation(v reflect.Value, fields []field) error {
